@@ -18,6 +18,7 @@ import threading
 from vf.runner import HarnessError
 
 WATCHDOG_S = 20.0
+_CURRENT = [None]  # the scheduler whose execution is running (for locks created at run time)
 
 
 class CoopLock:
@@ -31,7 +32,7 @@ class CoopLock:
 
     def acquire(self, blocking=True, timeout=-1):
         me = threading.get_ident()
-        s = self.sched
+        s = self.sched if self.sched is not None else _CURRENT[0]
         if self.owner == me and self.reentrant:
             self.count += 1
             return True
@@ -84,6 +85,38 @@ def replace_locks(namespaces):
             elif isinstance(v, CoopLock):
                 out.append(v)
     return out
+
+
+class ThreadingProxy:
+    """Stands in for the `threading` module inside the traced module: locks the code creates at
+    run time (lazily built locks, per-instance locks) are cooperative too; everything else is the
+    real module."""
+
+    def __init__(self, real=threading):
+        self._real = real
+        self.created = 0
+
+    def __getattr__(self, name):
+        return getattr(self._real, name)
+
+    def Lock(self):
+        self.created += 1
+        return CoopLock(reentrant=False)
+
+    def RLock(self):
+        self.created += 1
+        return CoopLock(reentrant=True)
+
+
+def proxy_threading(module):
+    """Install the proxy in `module` (handles `import threading` and `from threading import Lock`)."""
+    px = ThreadingProxy()
+    if getattr(module, 'threading', None) is threading:
+        module.threading = px
+    for name, reentrant in (('Lock', False), ('RLock', True)):
+        if getattr(module, name, None) is getattr(threading, name):
+            setattr(module, name, px.Lock if not reentrant else px.RLock)
+    return px
 
 
 class Execution:
@@ -172,6 +205,7 @@ class Scheduler:
             lk.sched = self
             lk.owner = None
             lk.count = 0
+        _CURRENT[0] = self
         threads = [threading.Thread(target=self._thread_main, args=(i,), daemon=True) for i in range(n)]
         for t in threads:
             t.start()
@@ -212,6 +246,7 @@ class Scheduler:
                 t.join(timeout=WATCHDOG_S)
         for lk in self.locks:
             lk.sched = None
+        _CURRENT[0] = None
         ex.results = list(self.results)
         return ex
 
